@@ -109,6 +109,9 @@ def witness(kind, lenclass, feat, thr, rng, disk):
             inner = [1, 2.5, 'x', None, True, [1, 2], {'a': [1, 2]}, -0.0, 2 ** 70]
         base = [rng.choice(inner) for _ in range(rng.randint(1, 4))]
         return base + ['p'] * max(0, n // 4)
+    if kind == 'badkeymap':
+        bad = rng.choice([(1, 2), b'k', (('a',), 3)])
+        return rng.choice([{bad: 'x', 'a': 1}, {'a': {bad: 1, 'c': [2]}, 'b': 2}, [1, {'z': {bad: None}}]])
     if kind == 'stream':
         return ('stream', bytes([7 + n % 200]) * n if n < 10 ** 6 else os.urandom(16) * (n // 16))
     raise MachineryError(kind)
